@@ -126,8 +126,16 @@ def run_case(case):
             pass
         st0 = np.random.get_state()
     _CALLS[0] = 0
+
+    def call():
+        if case["adv"] % 3 == 0:
+            # the documented signature (img_shape, accel, calib, dtype, crop_corner,
+            # return_density, seed, max_attempts, tol) called positionally
+            return mr.poisson(shape_arg, accel_arg, kw["calib"], kw["dtype"], kw["crop_corner"],
+                              False, kw["seed"], 30, kw["tol"])
+        return mr.poisson(shape_arg, accel_arg, **kw)
     try:
-        mask = mr.poisson(shape_arg, accel_arg, **kw)
+        mask = call()
         outcome = "mask"
     except ValueError as e:
         outcome = "error"
@@ -206,6 +214,8 @@ def run_case(case):
         mask[...] = 0.5
     mask = mask_first
     try:
+        # (the repeat is always made with keywords: positional and keyword calls with the same
+        # values must give the same mask)
         mask2 = mr.poisson(shape_arg, accel_arg, **kw)
     except (ValueError, PoissonAbort):
         return violated(sig, "second call with equal arguments did not return a mask", wit,
